@@ -1,58 +1,297 @@
-// Package vfs replaces io/ioutil file access of the instrumented packages with an in-memory device that logs writes.
+// Package vfs replaces the file access of the instrumented packages (io/ioutil and the file functions of os) with an
+// in-memory device that logs every operation, so that a harness can enumerate the states a crash can leave behind.
+//
+// Crash model: process crash. Operations take effect in program order; a crash can happen between any two operations
+// and in the middle of a write (any byte prefix of the written data). Reordering or loss of completed but unsynced
+// writes (power failure) is not modelled.
 package vfs
 
 import (
+	"fmt"
 	"io"
+	"io/fs"
 	"os"
+	"sort"
+	"time"
 )
 
 // Op is one logged device operation.
 type Op struct {
-	Kind string // "write"
-	Name string
-	Data []byte
+	Kind  string // open | write | sync | close | rename | remove | truncate
+	Name  string // the file operated on (the NEW name for rename)
+	Old   string // rename: the previous name
+	Trunc bool   // open: the file was truncated
+	Off   int    // write: offset; truncate: size
+	Data  []byte // write: the bytes; rename: the content that moved (informational)
 }
 
 var files = map[string][]byte{}
 var log []Op
+var tmpSeq int
 
 // Passthrough functions of io/ioutil that are not intercepted.
 func ReadAll(r io.Reader) ([]byte, error) { return io.ReadAll(r) }
 
-func Reset() { files = map[string][]byte{}; log = nil }
+// Reset empties the device and the log.
+func Reset() { files = map[string][]byte{}; log = nil; tmpSeq = 0 }
+
+func notExist(op, name string) error {
+	return &os.PathError{Op: op, Path: name, Err: os.ErrNotExist}
+}
 
 func ReadFile(name string) ([]byte, error) {
 	b, ok := files[name]
 	if !ok {
-		return nil, &os.PathError{Op: "open", Path: name, Err: os.ErrNotExist}
+		return nil, notExist("open", name)
 	}
 	return append([]byte(nil), b...), nil
 }
 
+// WriteFile is open(create, truncate) + write + close, like io/ioutil.WriteFile and os.WriteFile (no sync).
 func WriteFile(name string, data []byte, perm os.FileMode) error {
-	c := append([]byte(nil), data...)
-	log = append(log, Op{Kind: "write", Name: name, Data: c})
-	files[name] = c
-	return nil
+	f, err := OpenFile(name, os.O_WRONLY|os.O_CREATE|os.O_TRUNC, perm)
+	if err != nil {
+		return err
+	}
+	if _, err = f.Write(data); err != nil {
+		f.Close()
+		return err
+	}
+	return f.Close()
 }
 
 func Rename(oldpath, newpath string) error {
 	b, ok := files[oldpath]
 	if !ok {
-		return &os.PathError{Op: "rename", Path: oldpath, Err: os.ErrNotExist}
+		return &os.LinkError{Op: "rename", Old: oldpath, New: newpath, Err: os.ErrNotExist}
 	}
-	log = append(log, Op{Kind: "rename", Name: newpath, Data: b})
+	log = append(log, Op{Kind: "rename", Name: newpath, Old: oldpath, Data: append([]byte(nil), b...)})
 	files[newpath] = b
 	delete(files, oldpath)
 	return nil
 }
 
 func Remove(name string) error {
+	if _, ok := files[name]; !ok {
+		return notExist("remove", name)
+	}
+	log = append(log, Op{Kind: "remove", Name: name})
 	delete(files, name)
 	return nil
 }
 
-// Put installs a file image directly (harness side).
+func RemoveAll(name string) error { Remove(name); return nil }
+
+func Truncate(name string, size int64) error {
+	b, ok := files[name]
+	if !ok {
+		return notExist("truncate", name)
+	}
+	log = append(log, Op{Kind: "truncate", Name: name, Off: int(size)})
+	files[name] = resize(b, int(size))
+	return nil
+}
+
+func resize(b []byte, n int) []byte {
+	if n <= len(b) {
+		return b[:n]
+	}
+	return append(b, make([]byte, n-len(b))...)
+}
+
+func MkdirAll(path string, perm os.FileMode) error { return nil }
+func Mkdir(path string, perm os.FileMode) error    { return nil }
+func Chmod(name string, mode os.FileMode) error    { return nil }
+
+// Link gives the content a second name (the two names do not share later writes: sufficient for link+rename idioms).
+func Link(oldname, newname string) error {
+	b, ok := files[oldname]
+	if !ok {
+		return &os.LinkError{Op: "link", Old: oldname, New: newname, Err: os.ErrNotExist}
+	}
+	if _, exists := files[newname]; exists {
+		return &os.LinkError{Op: "link", Old: oldname, New: newname, Err: os.ErrExist}
+	}
+	log = append(log, Op{Kind: "open", Name: newname, Trunc: true}, Op{Kind: "write", Name: newname, Data: append([]byte(nil), b...)}, Op{Kind: "close", Name: newname})
+	files[newname] = append([]byte(nil), b...)
+	return nil
+}
+
+// CreateTemp creates a new file with a deterministic name.
+func CreateTemp(dir, pattern string) (*File, error) {
+	tmpSeq++
+	name := fmt.Sprintf("%s/%s%06d", dir, pattern, tmpSeq)
+	if dir == "" {
+		name = fmt.Sprintf("/tmp/%s%06d", pattern, tmpSeq)
+	}
+	return OpenFile(name, os.O_RDWR|os.O_CREATE|os.O_EXCL, 0o600)
+}
+
+type fileInfo struct {
+	name string
+	size int64
+}
+
+func (i fileInfo) Name() string       { return i.name }
+func (i fileInfo) Size() int64        { return i.size }
+func (i fileInfo) Mode() fs.FileMode  { return 0o644 }
+func (i fileInfo) ModTime() time.Time { return time.Time{} }
+func (i fileInfo) IsDir() bool        { return false }
+func (i fileInfo) Sys() any           { return nil }
+
+func Stat(name string) (os.FileInfo, error) {
+	b, ok := files[name]
+	if !ok {
+		return nil, notExist("stat", name)
+	}
+	return fileInfo{name, int64(len(b))}, nil
+}
+
+func Lstat(name string) (os.FileInfo, error) { return Stat(name) }
+
+// File is an open handle on the in-memory device.
+type File struct {
+	name   string
+	pos    int
+	rd, wr bool
+	app    bool
+	closed bool
+}
+
+func Open(name string) (*File, error) { return OpenFile(name, os.O_RDONLY, 0) }
+func Create(name string) (*File, error) {
+	return OpenFile(name, os.O_RDWR|os.O_CREATE|os.O_TRUNC, 0o666)
+}
+
+func OpenFile(name string, flag int, perm os.FileMode) (*File, error) {
+	_, exists := files[name]
+	if !exists && flag&os.O_CREATE == 0 {
+		return nil, notExist("open", name)
+	}
+	if exists && flag&os.O_CREATE != 0 && flag&os.O_EXCL != 0 {
+		return nil, &os.PathError{Op: "open", Path: name, Err: os.ErrExist}
+	}
+	f := &File{name: name, rd: flag&os.O_WRONLY == 0, wr: flag&(os.O_WRONLY|os.O_RDWR) != 0, app: flag&os.O_APPEND != 0}
+	trunc := f.wr && flag&os.O_TRUNC != 0
+	if f.wr || !exists {
+		log = append(log, Op{Kind: "open", Name: name, Trunc: trunc})
+	}
+	if !exists || trunc {
+		files[name] = []byte{}
+	}
+	return f, nil
+}
+
+func (f *File) Name() string { return f.name }
+
+func (f *File) Write(b []byte) (int, error) {
+	if f.closed {
+		return 0, os.ErrClosed
+	}
+	if !f.wr {
+		return 0, &os.PathError{Op: "write", Path: f.name, Err: os.ErrPermission}
+	}
+	cur := files[f.name]
+	if f.app {
+		f.pos = len(cur)
+	}
+	log = append(log, Op{Kind: "write", Name: f.name, Off: f.pos, Data: append([]byte(nil), b...)})
+	files[f.name] = writeAt(cur, f.pos, b)
+	f.pos += len(b)
+	return len(b), nil
+}
+
+func writeAt(cur []byte, off int, b []byte) []byte {
+	out := append([]byte(nil), cur...)
+	if off+len(b) > len(out) {
+		out = resize(out, off+len(b))
+	}
+	copy(out[off:], b)
+	return out
+}
+
+func (f *File) WriteString(s string) (int, error) { return f.Write([]byte(s)) }
+
+func (f *File) WriteAt(b []byte, off int64) (int, error) {
+	if f.closed {
+		return 0, os.ErrClosed
+	}
+	log = append(log, Op{Kind: "write", Name: f.name, Off: int(off), Data: append([]byte(nil), b...)})
+	files[f.name] = writeAt(files[f.name], int(off), b)
+	return len(b), nil
+}
+
+func (f *File) Read(b []byte) (int, error) {
+	if f.closed {
+		return 0, os.ErrClosed
+	}
+	cur := files[f.name]
+	if f.pos >= len(cur) {
+		return 0, io.EOF
+	}
+	n := copy(b, cur[f.pos:])
+	f.pos += n
+	return n, nil
+}
+
+func (f *File) ReadAt(b []byte, off int64) (int, error) {
+	cur := files[f.name]
+	if int(off) >= len(cur) {
+		return 0, io.EOF
+	}
+	n := copy(b, cur[off:])
+	if n < len(b) {
+		return n, io.EOF
+	}
+	return n, nil
+}
+
+func (f *File) Seek(offset int64, whence int) (int64, error) {
+	switch whence {
+	case io.SeekStart:
+		f.pos = int(offset)
+	case io.SeekCurrent:
+		f.pos += int(offset)
+	case io.SeekEnd:
+		f.pos = len(files[f.name]) + int(offset)
+	}
+	if f.pos < 0 {
+		f.pos = 0
+	}
+	return int64(f.pos), nil
+}
+
+func (f *File) Truncate(size int64) error {
+	log = append(log, Op{Kind: "truncate", Name: f.name, Off: int(size)})
+	files[f.name] = resize(append([]byte(nil), files[f.name]...), int(size))
+	return nil
+}
+
+func (f *File) Sync() error {
+	if f.closed {
+		return os.ErrClosed
+	}
+	log = append(log, Op{Kind: "sync", Name: f.name})
+	return nil
+}
+
+func (f *File) Close() error {
+	if f.closed {
+		return os.ErrClosed
+	}
+	f.closed = true
+	if f.wr {
+		log = append(log, Op{Kind: "close", Name: f.name})
+	}
+	return nil
+}
+
+func (f *File) Stat() (os.FileInfo, error)   { return Stat(f.name) }
+func (f *File) Chmod(mode os.FileMode) error { return nil }
+
+// ---- harness side ----
+
+// Put installs a file image directly.
 func Put(name string, data []byte) { files[name] = append([]byte(nil), data...) }
 
 // Get returns the current image.
@@ -60,3 +299,61 @@ func Get(name string) ([]byte, bool) { b, ok := files[name]; return b, ok }
 
 // Log returns the logged operations.
 func Log() []Op { return log }
+
+// Files returns a copy of the device content.
+func Files() map[string][]byte {
+	m := map[string][]byte{}
+	for k, v := range files {
+		m[k] = append([]byte(nil), v...)
+	}
+	return m
+}
+
+// Install replaces the device content (the log is cleared).
+func Install(m map[string][]byte) {
+	files = map[string][]byte{}
+	for k, v := range m {
+		files[k] = append([]byte(nil), v...)
+	}
+	log = nil
+}
+
+// Apply executes one logged operation on a device image; partial >= 0 applies only the first partial bytes of a write
+// (a write torn by a crash).
+func Apply(m map[string][]byte, op Op, partial int) {
+	switch op.Kind {
+	case "open":
+		if _, ok := m[op.Name]; !ok || op.Trunc {
+			m[op.Name] = []byte{}
+		}
+	case "write":
+		d := op.Data
+		if partial >= 0 && partial < len(d) {
+			d = d[:partial]
+		}
+		m[op.Name] = writeAt(m[op.Name], op.Off, d)
+	case "truncate":
+		m[op.Name] = resize(append([]byte(nil), m[op.Name]...), op.Off)
+	case "rename":
+		if b, ok := m[op.Old]; ok {
+			m[op.Name] = b
+			delete(m, op.Old)
+		}
+	case "remove":
+		delete(m, op.Name)
+	}
+}
+
+// Key is a canonical rendering of a device image.
+func Key(m map[string][]byte) string {
+	var names []string
+	for k := range m {
+		names = append(names, k)
+	}
+	sort.Strings(names)
+	s := ""
+	for _, k := range names {
+		s += fmt.Sprintf("%s\x00%d\x00%s\x00", k, len(m[k]), m[k])
+	}
+	return s
+}
